@@ -1078,6 +1078,79 @@ impl Described for Paged {
     }
 }
 
+// Option written twice, Box around Option: "None exactly for null" must hold for the field as a whole
+src_text! { NESTED_OPT_SRC,
+#[derive(Deserr, Debug)]
+pub struct NestedOpt {
+    pub a: Option<Option<u8>>,
+    #[deserr(default)]
+    pub b: Option<Option<String>>,
+    pub c: Box<Option<bool>>,
+    #[deserr(default = Some(Some(3)))]
+    pub d: Option<Option<u8>>,
+}
+}
+impl ToModel for NestedOpt {
+    fn to_model(&self) -> M {
+        M::Struct {
+            name: "NestedOpt".into(),
+            fields: vec![
+                ("a".into(), self.a.to_model()),
+                ("b".into(), self.b.to_model()),
+                ("c".into(), self.c.to_model()),
+                ("d".into(), self.d.to_model()),
+            ],
+        }
+    }
+}
+impl Described for NestedOpt {
+    fn ty() -> Ty {
+        let mut b = fld("b", "b", <Option<Option<String>>>::ty());
+        b.default = Some(M::None);
+        let mut d = fld("d", "d", <Option<Option<u8>>>::ty());
+        d.default = Some({
+            let x: Option<Option<u8>> = Some(Some(3));
+            x.to_model()
+        });
+        Ty::Struct(Arc::new(StructTy {
+            name: "NestedOpt".into(),
+            fields: vec![fld("a", "a", <Option<Option<u8>>>::ty()), b, fld("c", "c", <Box<Option<bool>>>::ty()), d],
+            deny: Deny::No,
+            validate: None,
+        }))
+    }
+}
+
+// identifiers with non-ASCII letters under both case conventions
+src_text! { ACCENT_SRC,
+#[derive(Deserr, Debug)]
+#[deserr(rename_all = lowercase, deny_unknown_fields)]
+#[allow(non_snake_case)]
+pub struct Accent {
+    pub Émile: u8,
+    pub RadiusÅ: u8,
+    pub plain: u8,
+}
+}
+impl ToModel for Accent {
+    fn to_model(&self) -> M {
+        M::Struct {
+            name: "Accent".into(),
+            fields: vec![("Émile".into(), self.Émile.to_model()), ("RadiusÅ".into(), self.RadiusÅ.to_model()), ("plain".into(), self.plain.to_model())],
+        }
+    }
+}
+impl Described for Accent {
+    fn ty() -> Ty {
+        Ty::Struct(Arc::new(StructTy {
+            name: "Accent".into(),
+            fields: vec![fld("Émile", "émile", <u8>::ty()), fld("RadiusÅ", "radiuså", <u8>::ty()), fld("plain", "plain", <u8>::ty())],
+            deny: Deny::Default,
+            validate: None,
+        }))
+    }
+}
+
 pub fn hand_entries() -> Vec<(Entry, bool)> {
     // (entry, modelled by the reference interpreter)
     vec![
@@ -1103,6 +1176,8 @@ pub fn hand_entries() -> Vec<(Entry, bool)> {
         // sets whose members have a container-level validate (the member's position is observable)
         (Entry::generic::<BTreeSet<Level>>("BTreeSet<Level>", "", "hand"), true),
         (Entry::generic::<HashSet<Level>>("HashSet<Level>", "", "hand"), true),
+        (Entry::generic::<NestedOpt>("NestedOpt", NESTED_OPT_SRC, "hand"), true),
+        (Entry::generic::<Accent>("Accent", ACCENT_SRC, "hand"), true),
         (Entry::generic::<Paged>("Paged", PAGED_SRC, "hand"), true),
         (Entry::generic::<Vec<Paged>>("Vec<Paged>", "", "hand"), true),
         (Entry::generic::<Intl>("Intl", INTL_SRC, "hand"), true),
